@@ -557,10 +557,25 @@ func (cp *ClientPromise) Fulfill(c *Client) {
 	if cp.h.calls == 0 {
 		close(cp.h.done)
 	}
-	rh = resolveHook(cp.h) // swaps mutex on cp.h for mutex on rh
-	if rh != nil {
-		rh.refs += refs
-		rh.mu.Unlock()
+	// Hand the references over to the hook the promise resolved to before
+	// letting go of cp.h.mu.  Otherwise there is a window in which they are
+	// counted on neither hook, and a Release that walks from cp.h to the
+	// resolved hook in that window drops a reference that was never added:
+	// the resolved capability is shut down while clients still refer to it.
+	switch {
+	case rh == cp.h:
+		cp.h.refs += refs
+		cp.h.mu.Unlock()
+	case rh != nil:
+		rh.mu.Lock()
+		rh = resolveHook(rh) // holds the mutex of the hook it returns
+		if rh != nil {
+			rh.refs += refs
+			rh.mu.Unlock()
+		}
+		cp.h.mu.Unlock()
+	default:
+		cp.h.mu.Unlock()
 	}
 	<-cp.h.done
 	cp.h.Shutdown()
